@@ -96,10 +96,23 @@ impl Ct {
     }
 }
 
+thread_local! {
+    /// a Content-Length the response claims (truthful or not): only a claim, the verdict must
+    /// not depend on it
+    static CLAIM: std::cell::RefCell<Option<String>> = std::cell::RefCell::new(None);
+}
+
+fn claim() -> Option<String> {
+    CLAIM.with(|c| c.borrow().clone())
+}
+
 fn response<B>(status: u16, ct: Ct, body: B) -> Response<B> {
     let mut r = Response::new(body);
     *r.status_mut() = StatusCode::from_u16(status).unwrap();
     ct.apply(&mut r);
+    if let Some(c) = claim() {
+        r.headers_mut().insert(http::header::CONTENT_LENGTH, HeaderValue::from_str(&c).unwrap());
+    }
     r
 }
 
@@ -216,7 +229,7 @@ fn same<T: PartialEq + Debug>(a: &T, b: &T) -> bool {
 fn judge<T: PartialEq + Debug>(r: &mut Report, case: &Case, flavour: &str, want: &Expect<T>, got: Result<Result<T, Error>, String>) -> Option<bool> {
     r.evaluations += 1;
     r.transitions += 1;
-    let cj = json!({"class": case.class, "function": case.func, "status": case.status, "content_type": format!("{:?}", case.ct), "flavour": flavour,
+    let cj = json!({"class": case.class, "function": case.func, "status": case.status, "content_type": format!("{:?}", case.ct), "flavour": flavour, "content_length": claim(),
         "script": case.script.iter().map(|e| match e { Ev::Chunk(b) => json!({"chunk": b}), Ev::Empty => json!("empty"), Ev::Pending => json!("pending"), Ev::Err => json!("err") }).collect::<Vec<_>>()});
     let chunks = case.script.iter().filter(|e| matches!(e, Ev::Chunk(_))).count();
     let input = format!("status={},ct={:?},{}{}", case.status, case.ct, if script::has_err(case.script) { "stream-error," } else { "" }, if chunks >= 3 { "chunks=3+".to_string() } else { format!("chunks={}", chunks) });
@@ -268,7 +281,7 @@ fn agree(r: &mut Report, case: &Case, a: Option<bool>, b: Option<bool>) {
             r.violation(
                 format!("C18|{}|blocking-async-disagree|status={},ct={:?}", case.func, case.status, case.ct),
                 format!("{} [{}]: blocking returned {} but async returned {} on {}", case.func, case.class, if x { "a value" } else { "an error" }, if y { "a value" } else { "an error" }, script::text(case.script)),
-                json!({"class": case.class, "function": case.func, "status": case.status, "content_type": format!("{:?}", case.ct), "flavour": "both",
+                json!({"class": case.class, "function": case.func, "status": case.status, "content_type": format!("{:?}", case.ct), "flavour": "both", "content_length": claim(),
                     "script": case.script.iter().map(|e| match e { Ev::Chunk(b) => json!({"chunk": b}), Ev::Empty => json!("empty"), Ev::Pending => json!("pending"), Ev::Err => json!("err") }).collect::<Vec<_>>()}),
             );
         }
@@ -493,6 +506,25 @@ pub fn run(args: &Args) -> Report {
             }
         }),
     ];
+    // the same sweeps (one deviation) under Content-Length claims: zero, small, beyond 32 bits,
+    // the largest u64, junk
+    let mut jobs = jobs;
+    for cl in ["0", "3", "4294967296", "18446744073709551615", "1x"] {
+        jobs.push(Box::new(move |r| {
+            CLAIM.with(|x| *x.borrow_mut() = Some(cl.to_string()));
+            for_classes!(sweep_value, sweep_default, r, 1, false);
+            for body in [&b"{\"a\":1}"[..], b"1 2", b"", b"nul"] {
+                for (s, _) in script::explore(body, 1, true, true) {
+                    for status in [200u16, 204] {
+                        r.states += 1;
+                        run_unit(r, status, Ct::Json, &s);
+                        run_binary(r, status, Ct::OctetStream, &s);
+                    }
+                }
+            }
+            CLAIM.with(|x| *x.borrow_mut() = None);
+        }));
+    }
     let parts: Vec<Report> = jobs
         .par_iter()
         .map(|job| {
@@ -509,6 +541,7 @@ pub fn run(args: &Args) -> Report {
     report.sample("unit", json!({"class": "unit", "status": 200, "content_type": "Json", "script": "chunk(\"{\\\"a\\\":[1,2]}\")", "expect": "()"}));
     report.bound("deviations", k);
     report.bound("statuses", json!([200, 201, 204]));
+    report.bound("content_length_claims", json!(["absent", "0", "3", "4294967296", "18446744073709551615", "1x"]));
     report.bound("content_types", json!(ALL_CT.iter().map(|c| format!("{:?}", c)).collect::<Vec<_>>()));
     report.nontrivial = report.states;
     report.rule = "states = (return class, status, Content-Type, body, script): per class its valid documents, every truncation, 16 trailers, doubled documents; statuses 200/201/204; 11 Content-Type situations; every stream history within the deviation bound plus uniform chunkings; each through decode_*_response and ConjureResponseDeserializer, blocking and async, whose verdicts must agree".into();
@@ -535,6 +568,9 @@ fn replay(path: &str, mut report: Report) -> Report {
     let status = c["status"].as_u64().unwrap() as u16;
     let class = c["class"].as_str().unwrap().to_string();
     report.exhaustive = false;
+    if let Some(cl) = c["content_length"].as_str() {
+        CLAIM.with(|x| *x.borrow_mut() = Some(cl.to_string()));
+    }
     match class.as_str() {
         "unit" => run_unit(&mut report, status, ct, &script),
         "binary" | "optional<binary>" => run_binary(&mut report, status, ct, &script),
